@@ -55,7 +55,7 @@ Theorem C02_resolution_imported : forall st callee x whole args has_args p T imp
     equal_fold (s_clz st) T = false ->
     pure_of T = T -> T <> "" ->
     find (fun i => String.eqb i T || has_suffix ("." ++ T) i) (s_imports st) = Some imp ->
-    T <> "super" -> callee <> "super" -> is_chain_call T = false ->
+    T <> "super" -> callee <> "super" -> is_chain_call T = false -> x <> "this" ->
     exists c,
       calls_at (body_event st (ECall callee x false "" whole args has_args p)) (cur_key st)
       = (calls_at st (cur_key st) ++ [c])%list /\
@@ -67,7 +67,7 @@ Print Assumptions C02_resolution_imported.
 Theorem C02_resolution_implicit : forall st callee whole args has_args p,
     warp_target_full_type st (parse_target_type st whole) = ("", "") ->
     parse_target_type st whole = whole ->
-    whole <> "super" -> callee <> "super" ->
+    whole <> "super" -> callee <> "super" -> whole <> "this" ->
     (forall imp, In imp (s_imports st) -> has_suffix ("." ++ callee) imp = false) ->
     is_chain_call (s_clz st) = false ->
     exists c,
